@@ -78,6 +78,15 @@ Qed.
 Lemma parsed_denoted d : parsed d = denoted d.
 Proof. reflexivity. Qed.
 
+(** the client hands a name-based argument on whatever its value (generated rule) *)
+Lemma client_merge_rule : xw_client_merge = MergeKwWins.
+Proof. reflexivity. Qed.
+
+Lemma client_named_args L P U0 Sv fuel i m hdr pos kw :
+  client_request_named L P U0 Sv fuel i m hdr pos kw
+  = client_request L P U0 Sv fuel i m hdr (merge_args MergeKwWins (map f_name (m_params m)) pos kw).
+Proof. unfold client_request_named. rewrite client_merge_rule. reflexivity. Qed.
+
 Lemma hdr_match_qualified ns name e : hdr_match ns name e = is_elt ns name e.
 Proof. reflexivity. Qed.
 
